@@ -122,7 +122,7 @@ class Sum(Sequential):
 
     def backward_var(self, grad, index, **kwargs):
         (a,) = self.variables
-        if self.axis is None:
+        if self.axis is None or a.ndim == 0:
             return np.full(a.shape, grad, dtype=a.dtype)
 
         if not self.keepdims:
